@@ -9,5 +9,5 @@ for id in "$@"; do
   ./check "$id" --tier "${TIER:-quick}" 2>&1 | grep -E "VIOLATION|tier=|HARNESS|^  " | cut -c1-300
 done
 git -C /repo checkout -- .
-rm -f replays/*/new-*.json; git -C /verif checkout -- evidence 2>/dev/null
+[ -n "$KEEP_NEW" ] || rm -f replays/*/new-*.json; git -C /verif checkout -- evidence 2>/dev/null
 git -C /repo status --short | head -3
